@@ -32,7 +32,9 @@ RULE = (
     "optionally inside if / one-iteration for / macro) over random values incl. literal-looking strings, bytes, Markup, "
     "non-literal objects and undefined; (b) the repr of a random Python literal (or a hand-picked near-literal), "
     "optionally damaged by one character edit and padded with blanks, cut into 1-5 chunks each rendered as template text, "
-    "string variable, native variable, template constant or through if/for/macro; (c) random piece trees. Every case is "
+    "string variable, native variable, template constant or through if/for/macro; (c) random piece trees; (d) DictLoader template sets: a base template whose layout "
+    "places 1-3 blocks (bodies of 0-5 chunks: text, native variables, constants) and 0-2 extending templates overriding "
+    "blocks, with super() and self.other() used as output, via set, |length, + 1 and as a loop iterable. Every case is "
     "rendered under NativeEnvironment render, async NativeEnvironment render and render_async, and a sandboxed native "
     "environment. Non-trivial = at least two run-time output pieces, or a single string piece that parses as a literal, "
     "or a text that parses but fails literal_eval for a non-syntax reason; distinct = distinct serialised case."
@@ -41,6 +43,7 @@ ASSUMPTIONS = [
     "the literal value of a text is Python's own ast.literal_eval(ast.parse(text, mode='eval')) (leading blanks are not stripped: repo test test_leading_spaces); any exception there means 'not a literal'",
     "'single node' is decided on run-time output pieces (an untaken if / a one-iteration loop around one expression still returns the object), as the implementation and repo tests test_loop_look_alike / test_macro do",
     "macros called in a native template return the native value of their body (repo test test_macro)",
+    "the value of super() / self.block() is the native value of that block's chunks (repo test test_block: self.b() == 11); a block placed in a layout contributes its chunks, not its joined value, to the template's chunk list",
     "template text avoids \\r and delimiter starts; keep_trailing_newline=True so text is emitted verbatim (whitespace handling is C11/C12)",
     "values compare by exact type and value (floats by repr); a single non-string run-time value supplied through the context must come back as the identical object",
 ]
@@ -77,7 +80,7 @@ def _setup():
     class SandboxedNativeEnvironment(SandboxedEnvironment, NativeEnvironment):
         pass
 
-    _state.update(Native=NativeEnvironment, SandNative=SandboxedNativeEnvironment, Markup=Markup, Undefined=jinja2.Undefined)
+    _state.update(DictLoader=jinja2.DictLoader, Native=NativeEnvironment, SandNative=SandboxedNativeEnvironment, Markup=Markup, Undefined=jinja2.Undefined)
     return _state
 
 
@@ -330,6 +333,158 @@ def _ref_expr(e, data, it):
     return _ref_expr(e["e"], data, it)
 
 
+# ---------------------------------------------------------------------------------------
+# inheritance family: {"kind": "inherit", "levels": [level0, level1, ...], "data": ..., "configs": ...}
+#   level0 := {"layout": [lpiece], "blocks": {name: [bpiece]}}   (template "t0"; every block is placed once in the layout)
+#   levelK := {"blocks": {name: [bpiece]}}                        (template "tK": {% extends "tK-1" %} + block overrides)
+#   lpiece := text | out | {"t": "block", "name": b} | ref ;  bpiece := text | out | ref
+#   ref    := {"t": "ref", "to": "super" | block name, "use": "out" | "set" | "len" | "plus" | "for"}
+# Documented rule: the value of super() / self.name() is the native value (native_concat) of the chunks of that
+# block; a block placed in the layout contributes its chunks to the template's own chunk list.
+
+USES = ("out", "set", "len", "plus", "for")
+
+
+def _ref_src(p, counter):
+    call = "super()" if p["to"] == "super" else "self.%s()" % p["to"]
+    use = p["use"]
+    if use == "out":
+        return "{{ %s }}" % call
+    if use == "set":
+        counter[0] += 1
+        return "{%% set tmp%d = %s %%}{{ tmp%d }}" % (counter[0], call, counter[0])
+    if use == "len":
+        return "{{ %s|length }}" % call
+    if use == "plus":
+        return "{{ %s + 1 }}" % call
+    if use == "for":
+        return "{%% for it in %s %%}{{ it }};{%% endfor %%}" % call
+    raise core.HarnessError("bad use %r" % (use,))
+
+
+def _body_src(pieces, counter, level, blocks0=None):
+    out = []
+    for p in pieces:
+        t = p["t"]
+        if t == "text":
+            if not text_ok(p["s"]):
+                raise core.Discard()
+            out.append(p["s"])
+        elif t == "out":
+            out.append("{{ %s }}" % _expr_src(p["e"], False))
+        elif t == "ref":
+            if p["to"] == "super" and level == 0:
+                raise core.Discard()
+            out.append(_ref_src(p, counter))
+        elif t == "block" and blocks0 is not None:
+            out.append("{%% block %s %%}%s{%% endblock %%}" % (p["name"], _body_src(blocks0[p["name"]], counter, 0)))
+        else:
+            raise core.Discard()
+    return "".join(out)
+
+
+def build_templates(case):
+    levels = case["levels"]
+    base = levels[0]
+    placed = [p["name"] for p in base["layout"] if p["t"] == "block"]
+    if sorted(placed) != sorted(base["blocks"]) or any(not set(lv["blocks"]) <= set(base["blocks"]) for lv in levels[1:]):
+        raise core.Discard()
+    counter = [0]
+    templates = {"t0": _body_src(base["layout"], counter, 0, base["blocks"])}
+    for k, lv in enumerate(levels[1:], 1):
+        parts = ['{%% extends "t%d" %%}' % (k - 1)]
+        for name in sorted(lv["blocks"]):
+            parts.append("{%% block %s %%}%s{%% endblock %%}" % (name, _body_src(lv["blocks"][name], counter, k)))
+        templates["t%d" % k] = "".join(parts)
+    return templates, "t%d" % (len(levels) - 1)
+
+
+def _stack(levels, name):
+    return [lv["blocks"][name] for lv in reversed(levels) if name in lv["blocks"]]
+
+
+def _block_chunks(levels, name, depth, data, info, labels, guard):
+    key = (name, depth)
+    if key in guard or len(guard) > 40:
+        raise core.Discard()  # a reference cycle: outside the generated domain
+    stack = _stack(levels, name)
+    if depth >= len(stack):
+        raise core.Discard()
+    return _chunks(levels, stack[depth], name, depth, data, info, labels, guard | {key})
+
+
+def ref_value(levels, p, name, depth, data, info, labels, guard):
+    if p["to"] == "super":
+        if name is None:
+            raise core.Discard()
+        target = (name, depth + 1)
+        labels.add("ref_super")
+    else:
+        target = (p["to"], 0)
+        labels.add("ref_self")
+    chunks = _block_chunks(levels, target[0], target[1], data, info, labels, guard)
+    if len(chunks) >= 2:
+        labels.add("ref_block_2plus_chunks")
+    if any(not isinstance(v, str) for v, _ in chunks):
+        labels.add("ref_block_nonstring_chunk")
+    return ref_concat(chunks, info)
+
+
+def _chunks(levels, pieces, name, depth, data, info, labels, guard):
+    out = []
+    for p in pieces:
+        t = p["t"]
+        if t == "text":
+            if p["s"]:
+                out.append((p["s"], False))
+        elif t == "out":
+            out.append(_ref_expr(p["e"], data, None))
+        elif t == "block":
+            out.extend(_block_chunks(levels, p["name"], 0, data, info, labels, guard))
+        elif t == "ref":
+            v, ident_ = ref_value(levels, p, name, depth, data, info, labels, guard)
+            use = p["use"]
+            labels.add("use_" + use)
+            if use in ("out", "set"):
+                out.append((v, ident_))
+            elif use == "len":
+                if not isinstance(v, (list, tuple, dict, set, frozenset)) and type(v) is not str:
+                    raise core.Discard()
+                out.append((len(v), False))
+            elif use == "plus":
+                if isinstance(v, bool) or not isinstance(v, (int, float)):
+                    raise core.Discard()
+                out.append((v + 1, False))
+            elif use == "for":
+                if not isinstance(v, (list, tuple)):
+                    raise core.Discard()
+                for x in v:
+                    out.append((x, ident_))
+                    out.append((";", False))
+            else:
+                raise core.HarnessError("bad use %r" % (use,))
+    return out
+
+
+def applicable_uses(v):
+    uses = ["out", "set"]
+    if isinstance(v, (list, tuple)):
+        uses += ["len", "for", "for"]
+    elif type(v) is str:
+        uses += ["len"]
+    elif isinstance(v, (int, float)) and not isinstance(v, bool):
+        uses += ["plus", "plus"]
+    return uses
+
+
+def ref_inherit(case, data, info, labels):
+    levels = case["levels"]
+    labels.add("inherit")
+    labels.add("inherit_levels_%d" % len(levels))
+    chunks = _chunks(levels, levels[0]["layout"], None, 0, data, info, labels, frozenset())
+    return ref_concat(chunks, info)
+
+
 def teq(a, b):
     """Exact type-and-value equality."""
     if type(a) is not type(b):
@@ -360,35 +515,48 @@ def _names_in(pieces, acc):
 
 def check_case(case):
     st = _setup()
-    pieces = case["pieces"]
     data = {k: dec(v) for k, v in case["data"].items()}
-    need = set()
-    _names_in(pieces, need)
-    if not need <= set(data) or any(k in ("ident", "it") or k.startswith("m") and k[1:].isdigit() for k in data):
-        raise core.Discard()
-    src = build_source(pieces)
+    inherit = case.get("kind") == "inherit"
     info = []
     with warnings.catch_warnings():
         warnings.simplefilter("ignore")
-        exp, identity = ref_concat(ref_pieces(pieces, data, None, info), info)
+        if inherit:
+            if any(k == "it" or k.startswith("tmp") for k in data):
+                raise core.Discard()
+            templates, main = build_templates(case)
+            src = templates
+            ref_labels = set()
+            exp, identity = ref_inherit(case, data, info, ref_labels)
+            pieces = []
+        else:
+            pieces = case["pieces"]
+            need = set()
+            _names_in(pieces, need)
+            if not need <= set(data) or any(k in ("ident", "it") or k.startswith("m") and k[1:].isdigit() for k in data):
+                raise core.Discard()
+            src = build_source(pieces)
+            exp, identity = ref_concat(ref_pieces(pieces, data, None, info), info)
         top = info[-1]
         labels = {"top_" + top}
-        labels.update("macro_" + x for x in info[:-1])
+        labels.update(("blockref_" if inherit else "macro_") + x for x in info[:-1])
+        if inherit:
+            labels.update(ref_labels)
         for cfg in case.get("configs", ALL_CONFIGS):
             envk, mode = cfg
+            loader = st["DictLoader"](dict(templates)) if inherit else None
             if envk == "sync":
-                env = st["Native"](keep_trailing_newline=True)
+                env = st["Native"](keep_trailing_newline=True, loader=loader)
             elif envk == "async":
-                env = st["Native"](keep_trailing_newline=True, enable_async=True)
+                env = st["Native"](keep_trailing_newline=True, enable_async=True, loader=loader)
             elif envk == "sandbox":
-                env = st["SandNative"](keep_trailing_newline=True)
+                env = st["SandNative"](keep_trailing_newline=True, loader=loader)
             else:
                 raise core.HarnessError("bad env %r" % (envk,))
             if mode == "render_async" and envk != "async":
                 raise core.Discard()
             env.globals["ident"] = ident
             env.filters["ident"] = ident
-            tmpl = env.from_string(src)
+            tmpl = env.get_template(main) if inherit else env.from_string(src)
             ctx = dict(data)
             if mode == "render":
                 got = tmpl.render(ctx)
@@ -412,7 +580,7 @@ def check_case(case):
     _kinds(pieces, kinds)
     labels.update("has_" + k for k in kinds)
     npieces = top.startswith("multi_")
-    nontrivial = npieces or top == "single_str_ok" or top.endswith(("_value", "_type", "_other")) or any(
+    nontrivial = npieces or (inherit and ("ref_super" in labels or "ref_self" in labels)) or top == "single_str_ok" or top.endswith(("_value", "_type", "_other")) or any(
         x.endswith(("_value", "_type", "_other")) for x in info)
     if any(x.endswith("_type") for x in info):
         labels.add("lit_typeerror")
@@ -664,7 +832,97 @@ def case_strategy(size):
 
         return {"pieces": pieces(0, False, False), "data": names.data, "configs": ALL_CONFIGS}
 
-    return st.one_of(single(), cut_literal(), cut_literal(), tree())
+    @st.composite
+    def inherit(draw):
+        names = _Names()
+        ints = st.integers(0, 12)
+        natives = st.one_of(ints, ints, st.lists(ints, max_size=3), st.sampled_from([1.5, 2.0, None, True, "a", "1", "[1, 2]", "", {"$": "tuple", "v": [1, 2]},
+                            {"$": "obj", "s": "[3]"}, {"$": "obj", "s": "x"}, {"$": "dict", "v": [["k", 1]]}, {"$": "bytes", "v": "[1]"}]))
+
+        def var(strategy):
+            return {"t": "out", "e": _wrap_expr(draw, st, {"k": "var", "n": names.new(draw(strategy))})}
+
+        def ref(to):
+            return {"t": "ref", "to": to, "use": "out"}
+
+        def body(level, index):
+            """1-4 (occasionally 0) chunk-producing pieces; refs start with use 'out' and are refined below."""
+            targets = (["super"] * 3 if level else []) + ["b%d" % j for j in range(index)]
+            shape = draw(st.sampled_from(["list", "list", "number", "single", "mix", "mix", "forward", "wrap", "empty"]))
+            if shape in ("forward", "wrap") and not targets:
+                shape = "list"
+            if shape == "list":
+                elems = [var(ints) if draw(st.booleans()) else {"t": "out", "e": {"k": "const", "v": draw(ints)}} for _ in range(draw(st.integers(1, 3)))]
+                if targets and draw(st.booleans()):
+                    elems[draw(st.integers(0, len(elems) - 1))] = ref(draw(st.sampled_from(targets)))
+                out = [{"t": "text", "s": draw(st.sampled_from(["[", "[", "(", "{ "]))}]
+                for i, e in enumerate(elems):
+                    out.append(e)
+                    out.append({"t": "text", "s": ", " if i + 1 < len(elems) else draw(st.sampled_from(["]", "]", ",)", "}", ""]))})
+                return [p for p in out if p["t"] != "text" or p["s"]]
+            if shape == "number":
+                sep = draw(st.sampled_from([".", "", "e", "_", " "]))
+                return [p for p in [var(ints), {"t": "text", "s": sep}, var(ints)] if p["t"] != "text" or p["s"]]
+            if shape == "single":
+                return [var(natives)]
+            if shape == "forward":
+                return [ref(draw(st.sampled_from(targets)))]
+            if shape == "wrap":
+                return [{"t": "text", "s": "["}, ref(draw(st.sampled_from(targets))), {"t": "text", "s": ", "}, var(ints), {"t": "text", "s": "]"}]
+            if shape == "empty":
+                return []
+            out = []
+            for _ in range(draw(st.integers(1, 4))):
+                k = draw(st.sampled_from(["text", "var", "const", "ref"]))
+                if k == "text":
+                    out.append({"t": "text", "s": sanitize(draw(st.sampled_from(["[", "]", ", ", ",", " ", "1", "0.", "'", "a", "(", ")", "-", "+", "\n"])))})
+                elif k == "var":
+                    out.append(var(natives))
+                elif k == "const":
+                    out.append({"t": "out", "e": {"k": "const", "v": draw(st.sampled_from([1, 0, "a", "1", ",", [1, 2], None, True, 2.5, ""]))}})
+                elif targets:
+                    out.append(ref(draw(st.sampled_from(targets))))
+            return out
+
+        nblocks = draw(st.integers(1, 3))
+        bnames = ["b%d" % i for i in range(nblocks)]
+        nlevels = draw(st.sampled_from([1, 2, 2, 2, 3]))
+        levels = [{"layout": [], "blocks": {b: body(0, i) for i, b in enumerate(bnames)}}]
+        for k in range(1, nlevels):
+            chosen = [b for b in bnames if draw(st.booleans())] or [bnames[0]]
+            levels.append({"blocks": {b: body(k, bnames.index(b)) for b in chosen}})
+        layout = []
+        for b in bnames:
+            if draw(st.integers(0, 3)) == 0:
+                layout.append({"t": "text", "s": draw(st.sampled_from(["|", ", ", " ", "[", "x"]))})
+            layout.append({"t": "block", "name": b})
+            for _ in range(draw(st.sampled_from([0, 0, 1, 1, 2]))):
+                if draw(st.integers(0, 2)) == 0:
+                    layout.append({"t": "text", "s": draw(st.sampled_from(["|", ", ", " ", "]", "x"]))})
+                layout.append(ref(draw(st.sampled_from(bnames))))
+        levels[0]["layout"] = layout
+        data = {k: dec(v) for k, v in names.data.items()}
+
+        # refine the use of every reference from the value it will have (bottom-up: base version first, b0 first)
+        def refine(pieces, name, depth):
+            for p in pieces:
+                if p["t"] == "ref":
+                    with warnings.catch_warnings():
+                        warnings.simplefilter("ignore")
+                        try:
+                            v, _ = ref_value(levels, p, name, depth, data, None, set(), frozenset())
+                        except core.Discard:
+                            continue
+                    p["use"] = draw(st.sampled_from(applicable_uses(v)))
+
+        for b in bnames:
+            stack = _stack(levels, b)
+            for depth in range(len(stack) - 1, -1, -1):
+                refine(stack[depth], b, depth)
+        refine(layout, None, 0)
+        return {"kind": "inherit", "levels": levels, "data": names.data, "configs": ALL_CONFIGS}
+
+    return st.one_of(single(), cut_literal(), cut_literal(), tree(), inherit(), inherit())
 
 
 def shards(tier):
@@ -716,6 +974,7 @@ def run_shard(spec, ctx):
 def floors(total, tier):
     lab = total.labels
     need = {"lit_typeerror": 20, "lit_valueerror": 100, "lit_ok": 500, "lit_syntaxerror": 200, "top_single_nonstr": 300,
-            "has_macro": 100, "has_for": 100, "has_if": 100, "cfg_async_render": 1000, "cfg_async_render_async": 1000, "cfg_sandbox_render": 1000}
+            "has_macro": 100, "inherit": 2000, "ref_super": 500, "ref_self": 500, "ref_block_2plus_chunks": 500,
+            "ref_block_nonstring_chunk": 500, "use_for": 50, "use_plus": 50, "use_len": 50, "use_set": 200, "has_for": 100, "has_if": 100, "cfg_async_render": 1000, "cfg_async_render_async": 1000, "cfg_sandbox_render": 1000}
     low = ["%s=%d<%d" % (k, lab.get(k, 0), v) for k, v in need.items() if lab.get(k, 0) < v]
     return ", ".join(low) or None
